@@ -201,6 +201,10 @@ class Body:
 
 class Facts:
     def __init__(self, j, root='/repo'):
+        self.inline_report = {'inlined': {}, 'kept': []}
+        if j.get('crate') == 'asefile':
+            import inline
+            j, self.inline_report = inline.apply(j)
         self.j = j
         self.root = root
         self.crate = j['crate']
